@@ -28,7 +28,7 @@ def type_name(v):
     if isinstance(v, DictS):
         return "dict"
     if isinstance(v, (ListLit, ListOf)):
-        return "list"
+        return getattr(v, "pyname", None) or "list"  # a model list may stand for a list subclass (construct's ListContainer)
     if isinstance(v, TupS):
         return "tuple"
     if isinstance(v, SetS):
@@ -69,7 +69,7 @@ def isinstance_rule(I, v, t):
         return Top("isinstance of unknown shape", deps=I.leaves(v))
     if tn == "bool" and "int" in names:
         return Const(True)
-    return Const(tn in names)
+    return Const(tn in names or any(b in names for b in getattr(v, "pybases", ())))
 
 
 def regex_optional_groups(pattern):
@@ -962,7 +962,10 @@ def call_method(I, recv, name, args, kwargs, node):
         if name == "values":
             return ListLit(list(recv.items.values()))
         if name == "keys":
-            return ListLit([Const(k) for k in recv.items])
+            kv = ListLit([Const(k) for k in recv.items])
+            if not recv.optional:
+                kv.pyname, kv.pybases = "dict_keys", ()  # a key view: supports the set operations
+            return kv
         if name == "copy":
             return recv.copy()
         if name in ("get", "pop"):
@@ -1034,6 +1037,28 @@ def call_method(I, recv, name, args, kwargs, node):
         if name in ("update", "setdefault", "pop", "popitem", "clear", "move_to_end", "__setitem__", "__delitem__"):
             raise ShapeError(f"dict.{name} in a form the interpreter does not model (the mapping would be changed in a way that is not tracked)")
         return Top(f"dict.{name}")
+    if isinstance(recv, SetS) and name in ("issuperset", "issubset", "isdisjoint", "union", "intersection", "difference", "copy") and all(isinstance(x, Const) for x in recv.elts):
+        mine = [x.v for x in recv.elts]
+        others = []
+        for arg in args:
+            el = seq_elts(I, arg, node)
+            if not all(isinstance(x, Const) for x in el):
+                return Top(f"set.{name} with symbolic members")
+            others.append([x.v for x in el])
+        if name == "copy":
+            return SetS(list(recv.elts))
+        if name in ("issuperset", "issubset", "isdisjoint") and len(others) == 1:
+            o = others[0]
+            return Const(all(x in mine for x in o) if name == "issuperset" else all(x in o for x in mine) if name == "issubset" else not any(x in o for x in mine))
+        if name == "union":
+            out = list(mine)
+            for o in others:
+                out += [x for x in o if x not in out]
+            return SetS([Const(x) for x in out])
+        if name == "intersection":
+            return SetS([Const(x) for x in mine if all(x in o for o in others)])
+        if name == "difference":
+            return SetS([Const(x) for x in mine if not any(x in o for o in others)])
     if isinstance(recv, (ListLit,)):
         if name == "append":
             rec = getattr(I, "_sym_appends", None)
